@@ -86,6 +86,7 @@ struct Srv {
     counts: Mutex<std::collections::HashMap<(Option<usize>, String), usize>>,
     idle_close: std::collections::HashMap<usize, u64>,
     reply_delay_us: u64,
+    body_read_delay_ms: u64,
     stop: AtomicBool,
     open: AtomicUsize,
 }
@@ -244,6 +245,7 @@ fn serve(mut sock: TcpStream, k: usize, srv: Arc<Srv>) {
                 "DATA" => {
                     if from.is_empty() || rcpts.is_empty() { reply(&mut sock, &srv, k, "503 need RCPT\r\n"); continue; }
                     reply(&mut sock, &srv, k, "354 go\r\n");
+                    if srv.body_read_delay_ms > 0 { std::thread::sleep(Duration::from_millis(srv.body_read_delay_ms)); }
                     let Some(body) = read_data(&mut sock, &mut buf, &srv) else { ev("EOF", json!("in data")); break 'conn; };
                     let id = String::from_utf8_lossy(&body).lines().find_map(|l| l.strip_prefix("X-Id: ").map(|s| s.to_string())).unwrap_or_default();
                     let f = srv.fault(k, "BODY");
@@ -482,6 +484,7 @@ pub fn run_scenario(sc: &Value) -> Value {
     let srv = Arc::new(Srv {
         faults, counts: Mutex::new(Default::default()), idle_close,
         reply_delay_us: sc["reply_delay_us"].as_u64().unwrap_or(0),
+        body_read_delay_ms: sc["body_read_delay_ms"].as_u64().unwrap_or(0),
         stop: AtomicBool::new(false), open: AtomicUsize::new(0),
     });
     let listener = TcpListener::bind("127.0.0.1:0").unwrap();
@@ -528,6 +531,7 @@ pub fn run_scenario(sc: &Value) -> Value {
                 if kind == "tokio" {
                     let rt = tokio::runtime::Builder::new_multi_thread().worker_threads(4).enable_all().build().unwrap();
                     rt.block_on(async {
+                        let tasks_before = tokio::runtime::Handle::current().metrics().num_alive_tasks();
                         let t = AsyncSmtpTransport::<Tokio1Executor>::builder_dangerous("127.0.0.1").port(port).timeout(Some(timeout))
                             .hello_name(ClientId::Domain("client.example".into())).pool_config(pool_cfg(&pool)).build();
                         let tr = Arc::new(Mutex::new(Some(t)));
@@ -552,7 +556,15 @@ pub fn run_scenario(sc: &Value) -> Value {
                             if Instant::now() > deadline { break; }
                             tokio::time::sleep(Duration::from_millis(2)).await;
                         }
-                        log(vec![json!("C"), json!("census_live"), json!({"all_closed": ok, "open_sockets": srv2.open.load(Ordering::SeqCst)})]);
+                        // ... and every task the transport spawned (its maintenance worker above all) must be gone
+                        let mut tasks_over = 0usize;
+                        loop {
+                            let n = tokio::runtime::Handle::current().metrics().num_alive_tasks();
+                            tasks_over = n.saturating_sub(tasks_before);
+                            if tasks_over == 0 || Instant::now() > deadline + Duration::from_millis(500) { break; }
+                            tokio::time::sleep(Duration::from_millis(2)).await;
+                        }
+                        log(vec![json!("C"), json!("census_live"), json!({"all_closed": ok, "open_sockets": srv2.open.load(Ordering::SeqCst), "tasks_still_alive": tasks_over})]);
                     });
                     rt.shutdown_timeout(Duration::from_millis(500));
                 } else {
